@@ -1172,8 +1172,16 @@ class C09(Prop):
                     self.kind[c] = 'limit'
                 elif which == 3:
                     ops = ['N'] * k
-                    ops.insert(rng.below(len(ops) + 1), 'Y' + rng.choice(['std', 'du.7', 'plus.3.100000']))
-                    c = gen.mkcase(f, cap, text, gen.rnd_chunking(rng, len(text)), None, rng.choice(['std', 'du.3']), ops)
+                    if rng.chance(1, 2):
+                        ops.insert(rng.below(len(ops) + 1), 'Y' + rng.choice(['std', 'du.7', 'plus.3.100000']))
+                        first = rng.choice(['std', 'du.3'])
+                    else:
+                        # a refusing / tightly limited policy first: reads hit the buffer limit, then a generous
+                        # policy is installed and the SAME record must be delivered
+                        first = rng.choice(['ref', 'dul.2.%d' % (cap + rng.below(6)), 'plus.1.%d' % (cap + rng.below(4))])
+                        j = rng.range(1, len(ops))
+                        ops = ops[:j] + ['N', 'Y' + rng.choice(['std', 'du.7', 'plus.5.100000'])] + ops[j:] + ['N', 'N']
+                    c = gen.mkcase(f, cap, text, gen.rnd_chunking(rng, len(text)), None, first, ops)
                     self.kind[c] = 'swap'
                 else:
                     c = gen.mkcase(f, cap, text, gen.rnd_chunking(rng, len(text)), None, 'std', ['S0'] * k)
@@ -1264,6 +1272,10 @@ class C06(Prop):
         ops = gen.rnd_history(rng, text, f, maxlen=10)
         # post-error / post-end calls of every kind
         ops += [rng.choice(['N', 'O', 'S0', 'E1.2', 'I0', 'I1', 'P', 'J%d' % rng.below(6)]) for _ in range(rng.range(2, 6))]
+        if rng.chance(1, 3):
+            # a more generous policy installed in mid-stream (typically after a buffer-limit error), then more reads
+            j = rng.below(len(ops))
+            ops = ops[:j] + ['Y' + rng.choice(['std', 'plus.7.100000', 'du.9'])] + ops[j:] + ['N', 'N', 'O']
         return ops
 
     def cases(self, tier, rng):
@@ -1383,6 +1395,24 @@ class C18(Prop):
                 eff = max(cap, one + 1)
                 warm = int(0.6 * (len(text) // eff + 1)) + 3
             out.append('al %s %d %s %s %d' % (f, cap, gen.hx(text), mode, warm))
+        # record sets whose batches differ in size (blocks of few large / many small records, repeated):
+        # no fixed warm-up is assumed here (warm = all calls); these cases are judged only against the
+        # model's prediction: wherever Model/Alloc.v says "no mark rises" the measured call must not allocate
+        for _ in range(n // 4):
+            f = rng.choice(['fa', 'fq'])
+            small, large = rng.choice([(2, 30), (4, 40), (1, 17), (8, 60)])
+            blocks = []
+            for cyc in range(rng.range(6, 14)):
+                for (m, cnt) in ((small, rng.range(4, 9)), (large, rng.range(1, 3))):
+                    for i in range(cnt):
+                        h = b'r%d' % (i % 10)
+                        if f == 'fa':
+                            blocks.append(b'>' + h + b'\n' + rnd_seq(rng, m).replace(b'*', b'A') + b'\n')
+                        else:
+                            blocks.append(b'@' + h + b'\n' + rnd_seq(rng, m) + b'\n+\n' + rnd_seq(rng, m).replace(b'-', b'I') + b'\n')
+            text = b''.join(blocks)
+            cap = rng.choice([48, 64, 96, 128])
+            out.append('al %s %d %s set 100000' % (f, cap, gen.hx(text)))
         return out
 
     def extra(self, tier, rng, stats):
